@@ -5,6 +5,7 @@ mod batch;
 mod choices;
 mod migration;
 mod mmr;
+mod pcztsim;
 mod runner;
 mod sim;
 mod simchain;
@@ -60,13 +61,14 @@ fn scenarios_for(id: &str) -> Vec<Arc<dyn Scenario>> {
         "C02" => vec![Arc::new(atomic::Atomic)],
         "C05" => vec![Arc::new(batch::Batch)],
         "C08" => vec![Arc::new(spend::Spend)],
+        "C13" => vec![Arc::new(pcztsim::PcztSim)],
         "C17" => vec![Arc::new(migration::MigScenario { prop: "C17" })],
         "C18" => vec![Arc::new(migration::MigScenario { prop: "C18" })],
         _ => vec![],
     }
 }
 
-const ALL: &[&str] = &["C01", "C02", "C03", "C05", "C06", "C08", "C15", "C17", "C18", "C20"];
+const ALL: &[&str] = &["C01", "C02", "C03", "C05", "C06", "C08", "C13", "C15", "C17", "C18", "C20"];
 
 fn usage() -> ! {
     eprintln!("usage: zsim <ID> [--tier quick|thorough] [--seed N] [--runs N] [--budget S] [--workers N] [--no-evidence]\n       zsim replay <file> [--quiet]\n       zsim selftest determinism [--n N]");
